@@ -60,6 +60,15 @@ def neverNoCk (_ : Nat) : Bool := false
 /-- RFC 768: a stored zero means "no checksum" (udp.go VerifyChecksum `existing == 0 ||`) -/
 def udpNoCk (e : Nat) : Bool := e == 0
 
+/-! ### the reference value (specification side) -/
+
+/-- the value the checksum field must hold: the RFC 1071 checksum (Gp.Cksum.rfc1071: one's-complement sum
+    with end-around carry, complemented) of `pre ++ seg` where `pre` is the pseudo-header byte string
+    (empty for IPv4 header, ICMPv4, GRE) and the field itself counts as zero; `post` is the protocol's
+    transmission rule for the value (UDP: zero is sent as 0xffff). -/
+def refCk (pre : Bytes) (off : Nat) (post : Nat → Nat) (seg : Bytes) : Nat :=
+  post (rfc1071 (pre ++ put16At seg off 0))
+
 /-! ### pseudo-headers -/
 
 /-- which network layer was attached with SetNetworkLayerForChecksum -/
@@ -71,6 +80,14 @@ inductive Net where
 def Net.ok : Net → Bool
   | .v4 s d => s.length == 4 && d.length == 4
   | .v6 s d => s.length == 16 && d.length == 16
+
+/-- the upper-layer length fits the pseudo-header's length field (16 bits for IPv4, 32 for IPv6) -/
+def Net.lenOk : Net → Nat → Prop
+  | .v4 _ _, n => n < 65536
+  | .v6 _ _, n => n < 4294967296
+
+instance (net : Net) (n : Nat) : Decidable (net.lenOk n) := by
+  cases net <;> simp only [Net.lenOk] <;> exact inferInstance
 
 /-- pseudoheaderChecksum of the attached layer -/
 def Net.pseudo : Net → Nat
@@ -329,12 +346,28 @@ def flipBit : Bytes → Nat → Bytes
   | b :: rest, i => if i < 8 then flipByte b (7 - i) :: rest else b :: flipBit rest (i - 8)
 
 /-! ### Packet.VerifyChecksums (packet.go, after proposed_fixes/cksum-3-packet-verify-network-layer)
-  on a two-layer packet: network layer, then one layer with a checksum. -/
+
+  The loop over the decoded layers.  Each layer is represented by what its VerifyChecksum returns
+  (`none`: the layer is not a LayerWithChecksum).  After the fix a TCP/UDP/ICMPv6 layer is verified
+  against the most recent network layer before it, which is how the caller computes its entry. -/
 
 /-- one entry of the mismatch list: layer index, Correct, Actual -/
 abbrev Mismatch := Nat × Nat × Nat
 
 def mismatchOf (idx : Nat) (r : VerRes) : List Mismatch :=
   if r.valid then [] else [(idx, r.correct, r.actual)]
+
+/-- packet.go VerifyChecksums from layer index `i` on: an error of any layer aborts, otherwise the
+    invalid layers are listed in order -/
+def packetVerify : List (Option (Res VerRes)) → Nat → Res (List Mismatch)
+  | [], _ => .ok []
+  | none :: rest, i => packetVerify rest (i + 1)
+  | some (.ok r) :: rest, i =>
+    match packetVerify rest (i + 1) with
+    | .ok ms => .ok (mismatchOf i r ++ ms)
+    | .err k => .err k
+    | .panic k => .panic k
+  | some (.err k) :: _, _ => .err k
+  | some (.panic k) :: _, _ => .panic k
 
 end Gp.CksumEmit
